@@ -79,15 +79,35 @@ def run_unit(args):
     sys.setrecursionlimit(max(old, 60000))
     t = threading.Thread(target=lambda: out.append(_run_unit(args, box)), daemon=True)
     t.start()
-    limit = args[2].get("path_limit_s", 10)
+    # per-path limit in CPU seconds of the worker thread (wall time would make the verdict depend on
+    # machine load and on the second-solver subprocesses); a non-returning call burns CPU
+    limit = args[2].get("path_limit_s", 20)
+    try:
+        clk = time.pthread_getcpuclockid(t.ident)
+        cpu = lambda: time.clock_gettime(clk)  # noqa: E731
+        cpu()
+    except Exception:  # noqa: BLE001
+        cpu = time.time
     kicks = 0
+    marker, cpu0 = None, 0.0
     while t.is_alive():
         t.join(0.5)
         eng = box.get("eng")
         st = getattr(eng, "path_started", None) if eng is not None else None
-        if st is not None and time.time() - st > limit:
+        if st is None:
+            marker = None
+            continue
+        try:
+            now = cpu()
+        except Exception:  # noqa: BLE001 - thread gone
+            break
+        if st != marker:
+            marker, cpu0 = st, now
+            continue
+        if now - cpu0 > limit:
             # a single path of the code under test has been running for too long: interrupt it
-            eng.path_started = time.time()
+            eng.path_started = marker = time.time()
+            cpu0 = now
             ctypes.pythonapi.PyThreadState_SetAsyncExc(ctypes.c_ulong(t.ident), ctypes.py_object(core.PathTimeout))
             kicks += 1
             if kicks > 50:
@@ -98,7 +118,7 @@ def run_unit(args):
     return out[0]
 
 
-def _confirm_hang(mod_name, unit, inputs, limit_s=12):
+def _confirm_hang(mod_name, unit, inputs, limit_s=20):
     """re-run the body on the REAL package with these inputs in a subprocess; True if it does not finish"""
     import subprocess
 
@@ -273,6 +293,7 @@ def main(mod, argv=None):
     opts = dict(getattr(mod, "OPTIONS", {}).get(tier, {}))
     opts["seed"] = seed
     if tier == "thorough":
+        opts.setdefault("path_limit_s", 60)
         opts.setdefault("cross_every", 400)  # sampled queries are re-decided by z3 4.8.12 and cvc5
     # cheapest first keeps the pool busy at the tail; order is otherwise irrelevant to the verdict
     order = list(range(len(units)))
